@@ -9,7 +9,8 @@ STD_ITER_TYPES = ('std::slice::Iter<', 'std::slice::IterMut<', 'std::ops::Range<
                   'std::iter::Skip<', 'std::iter::Cloned<', 'std::iter::Copied<', 'std::ops::RangeInclusive<',
                   'std::iter::StepBy<', 'std::slice::ChunksMut<', 'std::iter::FilterMap<', 'std::iter::Peekable<',
                   'std::str::', 'std::iter::FlatMap<', 'std::iter::Chain<', 'heapless::', 'std::collections::',
-                  'managed::', 'std::option::', 'std::slice::Windows<', 'std::slice::RChunks', 'std::iter::Flatten<')
+                  'managed::', 'std::option::', 'std::slice::Windows<', 'std::slice::RChunks', 'std::iter::Flatten<', 'std::slice::Split<',
+                  'std::slice::SplitN<', 'std::str::Split<')
 
 
 def back_edges(b):
